@@ -198,10 +198,15 @@ def main():
     extra = props.extra_checks(pid, rng, a.tier, st, cov) if st.get('cxx_exe') else []
     violations = []
     for v in extra:
-        violations.append(v)
+        if v.get('tie'):
+            # the implementation differs from the model without the property being shown violated
+            broken.append({'stage': 'correspondence', 'detail': v['what'], 'observed': v.get('observed')})
+        else:
+            violations.append(v)
 
-    # search for a concrete failing input when something no longer checks (or on request)
-    if (broken or a.oracles) and cxx_results is not None:
+    # the property's executable oracle on the implementation's outputs: always evaluated, and the
+    # search for a concrete failing input when a proof obligation or the correspondence broke
+    if cxx_results is not None:
         try:
             violations += props.oracle(pid, cxx_results, metas, st)
         except Exception:
